@@ -8,7 +8,9 @@ the exactness of every kernel for all inputs (C01, C02, C11, C13, C14).
 Conformance: known-answer style states (zero, Fibonacci), boundary values in every position, seeded states in all
 representations are run through hash_full_result_seq / hash_full_result / in-place forms / hash_seq / hash and, in the
 -mavx512f build, hash_full_result_avx512 / hash_avx512 on interleaved pairs; Trace_Poseidon requires all entry points to
-agree modulo p on every event and, for a sample (quick 24, thorough 400 states), re-derives the result by evaluating
+agree modulo p on every event (including directed states that place near-wrap column sums and non-canonical lane
+products at the input of each of the first four matrix products, by pulling them back through x -> (x-C)^(1/7) and the
+inverse matrix) and, for a sample (quick 24, thorough 400 states), re-derives the result by evaluating
 Perm in TLC."""
 import os, json
 import vlib, poslib
@@ -43,6 +45,81 @@ def gen_cases(seed, tier):
     return cases
 
 
+def directed_states(consts, seed, n):
+    """States chosen so that a prescribed vector v enters the r-th matrix product (r = 0..3; 3 = the pre-matrix P):
+    pull v back through the rounds (x -> (x - C)^(1/7), multiplication by the inverse matrix).  The vectors are those a
+    lazily reduced / vectorised product is sensitive to: integer column sums within a few units of a multiple of 2^64,
+    and lane products in the non-canonical band [p, 2^64)."""
+    rng = vlib.Rng(seed ^ 0xD1EC)
+    C = consts['C']; Mm = [[consts['M'][12 * j + i] for i in range(12)] for j in range(12)]   # M[j][i]
+    Pm = [[consts['P'][12 * j + i] for i in range(12)] for j in range(12)]
+    inv7 = pow(7, -1, P - 1)
+
+    def matinv(A):
+        n_ = 12
+        a = [[A[r][c] % P for c in range(n_)] + [1 if r == c else 0 for c in range(n_)] for r in range(n_)]
+        for col in range(n_):
+            piv = next(r for r in range(col, n_) if a[r][col] % P)
+            a[col], a[piv] = a[piv], a[col]
+            iv = pow(a[col][col], -1, P)
+            a[col] = [x * iv % P for x in a[col]]
+            for r in range(n_):
+                if r != col and a[r][col]:
+                    f = a[r][col]
+                    a[r] = [(x - f * y) % P for x, y in zip(a[r], a[col])]
+        return [row[n_:] for row in a]
+    # out[i] = sum_j mat[j][i] * st[j]  ->  as matrix T[i][j] = mat[j][i]
+    TM = [[Mm[j][i] for j in range(12)] for i in range(12)]
+    TMi = matinv(TM)
+
+    def unmat(v):      # input of the M product given its output
+        return [sum(TMi[i][j] * v[j] for j in range(12)) % P for i in range(12)]
+
+    def pull(v, r):
+        """v = input vector of matrix product number r  ->  permutation input state"""
+        cur = [x % P for x in v]
+        for k in range(r, -1, -1):
+            # cur = pow7(prev) + C[(k+1)*12 ..]   (k = 3 uses offset 48, same formula)
+            prev = [pow((cur[i] - C[(k + 1) * 12 + i]) % P, inv7, P) for i in range(12)]
+            if k == 0:
+                return [(prev[i] - C[i]) % P for i in range(12)]
+            cur = unmat(prev)    # prev = M-product output of round k-1
+    out = []
+    for t in range(n):
+        r = t % 4
+        mat = Pm if r == 3 else Mm
+        col = rng.below(12)
+        kind = t % 3
+        v = [rng.next() % P for _ in range(12)]
+        if kind == 0:
+            # integer sum of column `col` just below a multiple of 2^64
+            j0 = rng.below(12)
+            while mat[j0][col] % P == 0:
+                j0 = (j0 + 1) % 12
+            m = mat[j0][col]
+            if m < 2**16:
+                rest = sum(mat[j][col] * v[j] for j in range(12) if j != j0)
+                k = rest // M + 1 + rng.below(max(1, m // 2))
+                v[j0] = min(P - 1, (k * M - 1 - rng.below(3) - rest) // m)
+        elif kind == 1:
+            # single large entry whose product with a small coefficient is 2^64+-small
+            v = [0] * 12
+            j0 = rng.below(12); m = mat[j0][col] or 1
+            if m < 2**16:
+                v[j0] = min(P - 1, ((1 + rng.below(m)) * M - 1 - rng.below(8)) // m)
+        else:
+            # every lane product in [p, 2^64)
+            for j in range(12):
+                m = mat[j][col]
+                if 0 < m < 2**16:
+                    v[j] = min(P - 1, (M - 1 - rng.below(1 << 16)) // m)
+        try:
+            out.append(pull(v, r))
+        except Exception:
+            pass
+    return out
+
+
 def write_cases(path, cases):
     with open(path, 'w') as f:
         for op, s, b in cases:
@@ -59,8 +136,18 @@ def run(tier, seed, replay=None):
     else:
         cases = gen_cases(seed, tier)
     total_rej = 0
+    directed_done = False
     for variant, exe in poslib.drivers():
         pc = poslib.dump_consts(wd, exe)
+        if not replay and not directed_done:
+            cj = json.load(open(pc))
+            consts = {k: [vlib.unw64(x) for x in v] for k, v in cj.items()}
+            ds = directed_states(consts, seed, 120 if tier == 'quick' else 2400)
+            rng2 = vlib.Rng(seed ^ 0x77)
+            for i, st in enumerate(ds):
+                cases.append(('permfull' if i % (10 if tier == 'quick' else 40) == 0 else 'perm', st, ds[(i * 7 + 3) % len(ds)]))
+            ck.cov['directed_states'] = len(ds)
+            directed_done = True
         cpath = os.path.join(wd, 'cases_%s.txt' % variant); tpath = os.path.join(wd, 'trace_%s.ndjson' % variant)
         write_cases(cpath, cases)
         r = sh([exe, cpath, tpath], timeout=900)
